@@ -55,7 +55,7 @@ func amount(t *rapid.T) uint64 {
 }
 
 func genAccountOp(t *rapid.T) Op {
-	kinds := []string{"addbal", "addbal", "subbal", "setnonce", "setcode", "setstate", "setstate", "setstate",
+	kinds := []string{"addbal", "addbal", "subbal", "setnonce", "setcode", "setstate", "setstate", "setstate", "setparent",
 		"suicide", "create", "log", "addrefund", "subrefund", "preimage"}
 	op := Op{K: rapid.SampledFrom(kinds).Draw(t, "ak")}
 	switch op.K {
@@ -72,6 +72,9 @@ func genAccountOp(t *rapid.T) Op {
 		op.A = rapid.IntRange(0, NAcct-1).Draw(t, "a")
 		op.S = rapid.IntRange(0, NSlot-1).Draw(t, "s")
 		op.N = uint64(rapid.IntRange(0, 3).Draw(t, "n"))
+	case "setparent":
+		op.A = rapid.IntRange(0, NAcct-1).Draw(t, "a")
+		op.S = rapid.IntRange(0, NSlot-1).Draw(t, "s")
 	case "suicide":
 		op.A = rapid.IntRange(0, NAcct-1).Draw(t, "a")
 	case "create":
@@ -280,7 +283,7 @@ func Entities(op Op) []string {
 	switch op.K {
 	case "addbal", "subbal", "setnonce":
 		return []string{acct(op.A % NAll)}
-	case "setcode", "setstate", "log":
+	case "setcode", "setstate", "setparent", "log":
 		return []string{acct(op.A % NAcct)}
 	case "addrefund", "subrefund", "preimage":
 		return nil
@@ -324,4 +327,59 @@ func Conflict(a, b Op) bool {
 		}
 	}
 	return false
+}
+
+// GenStorageOps draws a history concentrated on the storage journal across the
+// transactions of a block: two contracts x two slots, a committed pre-state with
+// non-zero slots, values from {parent value, 0, 1, 2, 3}, nested snapshots, and mostly
+// Finalise-only transaction boundaries (as between the transactions of a block; an
+// IntermediateRoot refreshes the original-value cache and is kept rare).
+func GenStorageOps(t *rapid.T, max int) []Op {
+	var ops []Op
+	for a := 0; a < 2; a++ {
+		ops = append(ops, Op{K: "addbal", A: a, N: uint64(rapid.IntRange(1, 5).Draw(t, "bal"))})
+		for s := 0; s < 2; s++ {
+			if v := rapid.IntRange(0, 3).Draw(t, "pre"); v > 0 {
+				ops = append(ops, Op{K: "setstate", A: a, S: s, N: uint64(v)})
+			}
+		}
+	}
+	switch rapid.IntRange(0, 9).Draw(t, "preend") {
+	case 0:
+		ops = append(ops, Op{K: "fin"})
+	case 1:
+		ops = append(ops, Op{K: "iroot"})
+	case 2:
+		ops = append(ops, Op{K: "commit"})
+	default:
+		ops = append(ops, Op{K: "commit", M: rapid.IntRange(1, 2).Draw(t, "m")})
+	}
+	one := rapid.Custom(func(t *rapid.T) Op {
+		w := rapid.IntRange(0, 99).Draw(t, "fam")
+		a, s := rapid.IntRange(0, 1).Draw(t, "a"), rapid.IntRange(0, 1).Draw(t, "s")
+		switch {
+		case w < 34:
+			return Op{K: "setstate", A: a, S: s, N: uint64(rapid.IntRange(0, 3).Draw(t, "n"))}
+		case w < 48:
+			return Op{K: "setparent", A: a, S: s}
+		case w < 64:
+			return Op{K: "snap"}
+		case w < 77:
+			return Op{K: "revert", N: uint64(rapid.IntRange(0, 3).Draw(t, "n"))}
+		case w < 90:
+			return Op{K: "fin"}
+		case w < 92:
+			return Op{K: "iroot"}
+		case w < 94:
+			return Op{K: "commit", M: rapid.IntRange(0, 2).Draw(t, "m")}
+		case w < 96:
+			return Op{K: "suicide", A: a}
+		case w < 98:
+			return Op{K: "create", A: a, M: rapid.IntRange(0, 1).Draw(t, "m"), N: uint64(rapid.IntRange(0, 2).Draw(t, "n"))}
+		default:
+			return Op{K: "addbal", A: a, N: uint64(rapid.IntRange(0, 2).Draw(t, "n"))}
+		}
+	})
+	minLen := rapid.IntRange(1, max).Draw(t, "minops")
+	return append(ops, rapid.SliceOfN(one, minLen, max).Draw(t, "ops")...)
 }
